@@ -219,6 +219,22 @@ def run_case(ctx, h, m, schema, pop, holes, states, strict, workdir, tag, reuse=
     if [(l, i.id) for l, i in e0] != [(LETTER[s], i.id) for s, i in zip(states, pop)]:
         return ("property", f"first save does not list every instance with its state letter: {[(l, i.id) for l, i in e0]} "
                             f"expected {[(LETTER[s], i.id) for s, i in zip(states, pop)]}")
+    # ... and with the VALUES of the file the session was loaded from: loading changes no value, whatever state the instance is
+    # saved in - an instance marked complete may still lack a required value, and in a strict STEPfile that `$` stays a `$`
+    # (only a lenient one substitutes 0 / 0.0 / '' for an unset required INTEGER / REAL / NUMBER / STRING: C15)
+    subst_ok = {(pop[idx].id, pi, ai) for idx, pi, ai, base in holes if not strict and base in SUBST}
+    for (l, i), orig in zip(e0, pop):
+        same = G.inst_equal(i, orig)
+        if not same and subst_ok:
+            j0, j1 = orig.copy(), i.copy()
+            for pi in range(len(j0.parts)):
+                for ai in range(len(j0.parts[pi][1])):
+                    if (orig.id, pi, ai) in subst_ok and pi < len(j1.parts) and ai < len(j1.parts[pi][1]):
+                        j1.parts[pi][1][ai] = j0.parts[pi][1][ai]
+            same = G.inst_equal(j0, j1)
+        if not same:
+            return ("property", f"first save ({'strict' if strict else 'lenient'} STEPfile): instance #{orig.id} saved as {l}{G.render_inst(i)}, the file the session "
+                                f"was loaded from ({start} file) has {G.render_inst(orig)} in state {states[pop.index(orig)]}")
     live = [(s, i) for s, i in zip(states, pop) if s != "deleteSE"]
     d1 = parse_dump(d1h)
     if [int(a) for a, _, _ in d1] != [i.id for _, i in live]:
@@ -511,7 +527,9 @@ def run(ctx):
                     pop = G.restring(ctx.rng, pop, G.TRICKY_STRS, 0.6)
                 prev_case = None
                 for ai in range(n_assign):
-                    mode = ["any", "complete", "nodelete", "any", "uniform", "complete"][ai % 6]
+                    # "complete" on ai = 1, 5 (session loaded from a working-session file) and ai = 3 (from an exchange file, states set
+                    # through the API): every instance marked complete although ~35 % of them lack a required value
+                    mode = ["any", "complete", "nodelete", "complete", "uniform", "complete"][ai % 6]
                     states = assign_states(ctx.rng, pop, mode)
                     # a run of deleted instances in FRONT of everything else (boundary values of the reader's give-up rules)
                     nlead = [0, 0, 1, 49, 50, 51, 120, 0][(pi_ * n_assign + ai) % 8]
